@@ -96,12 +96,39 @@ def cases(tier, seed, rng):
     views = [Case(view_history(rng, tier), 'gen:view') for _ in range(nv)]
     return views + slice_cases(tier, seed, rng)
 
+def gen_one_sided(rng):
+    """only the start or only the end given for a sampled / range dimension that has a unit, in another unit of the same quantity:
+    the given bound has to be scaled into the dimension's unit, the filled-in one must not be"""
+    for _ in range(100):
+        rank = rng.choice([1, 1, 2])
+        shape, dims = G.make_array(rng, rank=rank, kinds=[rng.choice('SR') for _ in range(rank)], unit_prob=1.0)
+        i = rank - 1
+        d = dims[i]
+        u = d.own_unit()
+        fam = G.TIME_UNITS if u in G.TIME_UNITS else G.VOLT_UNITS
+        v = rng.choice([x for x in fam if x != u])
+        starts, ends = [], []
+        for j in range(rank):
+            p = G.pick_position(dims[j], rng)
+            starts.append(p); ends.append(p + G.pick_extent(dims[j], p, rng))
+        units = [dims[j].own_unit() for j in range(rank)]
+        only_start = rng.random() < 0.5
+        x = G.rescale(starts[i] if only_start else ends[i], u, v)
+        if x is None: continue
+        units[i] = v
+        if only_start:
+            starts[i] = x; ends = ends[:i]
+        else:
+            ends[i] = x; starts = starts[:i]
+        return shape, dims, starts, ends, units
+    return gen_slice(rng)
+
 def slice_cases(tier, seed, rng):
     from vlib.runner import Case
     n = 1000 if tier == 'quick' else 25000
     out, batch = [], []
     for k in range(n):
-        shape, dims, starts, ends, units = gen_slice(rng)
+        shape, dims, starts, ends, units = gen_one_sided(rng) if k % 12 == 11 else gen_slice(rng)
         for rm in ('incl', 'excl'):
             batch.append(sline(shape, dims, starts, ends, units, rm))
         if len(batch) >= 200:
